@@ -99,12 +99,21 @@ Definition frame_ok (f : frame) : Prop :=
 
 Definition byte0 (fin : bool) (rsv opcode : N) : N := (if fin then 128 else 0) + rsv * 16 + opcode.
 
-Definition encode_frame (f : frame) : list N :=
-  let '(l7, el) := len_field (lenN (f_payload f)) in
-  match f_mask f with
-  | Some k => byte0 (f_fin f) (f_rsv f) (f_opcode f) :: (128 + l7) :: el ++ k ++ xor_spec k 0 (f_payload f)
-  | None => byte0 (f_fin f) (f_rsv f) (f_opcode f) :: l7 :: el ++ f_payload f
+(* header octets of a frame announcing a payload of n octets *)
+Definition encode_header (fin : bool) (rsv opcode : N) (mask : option (list N)) (n : N) : list N :=
+  let '(l7, el) := len_field n in
+  match mask with
+  | Some k => byte0 fin rsv opcode :: (128 + l7) :: el ++ k
+  | None => byte0 fin rsv opcode :: l7 :: el
   end.
+
+(* 5.3: octet i of the payload is XORed with octet (i mod 4) of the masking key *)
+Definition mask_payload (mask : option (list N)) (p : list N) : list N :=
+  match mask with Some k => xor_spec k 0 p | None => p end.
+
+Definition encode_frame (f : frame) : list N :=
+  encode_header (f_fin f) (f_rsv f) (f_opcode f) (f_mask f) (lenN (f_payload f))
+  ++ mask_payload (f_mask f) (f_payload f).
 
 Definition encode_frames (fs : list frame) : list N := concat (map encode_frame fs).
 
@@ -116,12 +125,14 @@ Inductive mask_policy :=
 
 Record rcfg := mkRcfg {
   rc_mask : mask_policy;
-  rc_rsv_ok : N -> bool           (* which RSV values a negotiated extension permits besides 0 *)
+  rc_rsv_ok : N -> bool;          (* which RSV values a negotiated extension permits besides 0 *)
+  rc_opcode_rules : bool          (* judge opcodes (5.2 reserved opcodes, 5.5 control frame rules); false = syntax only *)
 }.
 
-Definition rc_strict_from_client : rcfg := mkRcfg MustMask (fun _ => false).
-Definition rc_strict_from_server : rcfg := mkRcfg MustNotMask (fun _ => false).
-Definition rc_any : rcfg := mkRcfg AnyMask (fun _ => false).
+Definition rc_strict_from_client : rcfg := mkRcfg MustMask (fun _ => false) true.
+Definition rc_strict_from_server : rcfg := mkRcfg MustNotMask (fun _ => false) true.
+Definition rc_any : rcfg := mkRcfg AnyMask (fun _ => false) true.      (* no judgement on the MASK bit only *)
+Definition rc_syntax : rcfg := mkRcfg AnyMask (fun _ => true) false.   (* frame syntax only: any opcode / RSV / mask *)
 
 Definition is_control (opcode : N) : bool := 8 <=? opcode.
 Definition opcode_known (opcode : N) : bool :=
@@ -130,9 +141,9 @@ Definition opcode_known (opcode : N) : bool :=
 (* the rules that can be judged from the header alone (5.1, 5.2, 5.5) *)
 Definition header_check (rc : rcfg) (fin : bool) (rsv opcode : N) (masked : bool) (n : N) : option perr :=
   if negb (rsv =? 0) && negb (rc_rsv_ok rc rsv) then Some EReservedBits
-  else if negb (opcode_known opcode) then Some EReservedOpcode
-  else if is_control opcode && negb fin then Some EControlFragmented
-  else if is_control opcode && (125 <? n) then Some EControlTooLong
+  else if rc_opcode_rules rc && negb (opcode_known opcode) then Some EReservedOpcode
+  else if rc_opcode_rules rc && is_control opcode && negb fin then Some EControlFragmented
+  else if rc_opcode_rules rc && is_control opcode && (125 <? n) then Some EControlTooLong
   else match rc_mask rc, masked with
        | MustMask, false => Some EMaskRequired
        | MustNotMask, true => Some EMaskForbidden
